@@ -76,6 +76,7 @@ type MSign struct {
 
 type Model struct {
 	Bal      map[string]*big.Int
+	Dust     map[string]*big.Int // balances in the second denomination
 	Supply   *big.Int
 	Vals     map[int]*MVal
 	Sign     map[int]*MSign
@@ -128,11 +129,14 @@ var AllParamKeys = []string{
 }
 
 func NewModel(kr *Keyring, g *Genesis) *Model {
-	m := &Model{Bal: map[string]*big.Int{}, Supply: new(big.Int), Vals: map[int]*MVal{}, Sign: map[int]*MSign{},
+	m := &Model{Dust: map[string]*big.Int{}, Bal: map[string]*big.Int{}, Supply: new(big.Int), Vals: map[int]*MVal{}, Sign: map[int]*MSign{},
 		EverVal: map[int]bool{}, Awards: map[int]*big.Int{}, Burns: map[int]*big.Rat{}, P: DefaultMParams(),
 		PoolGifts: new(big.Int), TxIndex: map[string]bool{}, kr: kr}
 	for i, b := range g.Balances {
 		m.Bal[acctKey(i)] = big.NewInt(b)
+		if d := g.EffectiveDust(i); d > 0 {
+			m.Dust[acctKey(i)] = big.NewInt(d)
+		}
 	}
 	for _, k := range []string{ModFee, ModPool, ModPos, ModDAO} {
 		m.Bal[k] = new(big.Int)
@@ -182,6 +186,15 @@ func (m *Model) bal(k string) *big.Int {
 	if !ok {
 		b = new(big.Int)
 		m.Bal[k] = b
+	}
+	return b
+}
+
+func (m *Model) dust(k string) *big.Int {
+	b, ok := m.Dust[k]
+	if !ok {
+		b = new(big.Int)
+		m.Dust[k] = b
 	}
 	return b
 }
@@ -311,6 +324,11 @@ func (m *Model) BeginBlock(h int64, t int64, proposer int, votes []Vote, evs []E
 		f := new(big.Int).Set(m.bal(ModFee))
 		e.FeesPaid = f
 		m.move(ModFee, ModPos, f)
+		// coins of other denominations follow into the pos module account and stay there
+		if d := m.dust(ModFee); d.Sign() > 0 {
+			m.dust(ModPos).Add(m.dust(ModPos), d)
+			m.Dust[ModFee] = new(big.Int)
+		}
 		if _, ok := m.Vals[m.PrevProposer]; ok && m.PrevProposer >= 0 {
 			m.move(ModPos, acctKey(m.PrevProposer), f)
 			e.FeesTo = m.PrevProposer
@@ -476,6 +494,9 @@ func (m *Model) PredictTx(f *TxFacts) TxPrediction {
 		if f.Fee.Cmp(m.bal(acctKey(s.Acct))) > 0 {
 			p.MustReject, p.RejectReason, p.RejectProp, p.AnteOK = true, "fee-exceeds-balance", "C03", false
 		}
+		if f.FeeDust != nil && f.FeeDust.Cmp(m.dust(acctKey(s.Acct))) > 0 {
+			p.MustReject, p.RejectReason, p.RejectProp, p.AnteOK = true, "fee-exceeds-balance", "C03", false
+		}
 		if !f.FeeValid && f.Fee.Sign() != 0 {
 			p.AnteOK = false
 		}
@@ -555,6 +576,10 @@ func (m *Model) ApplyTx(f *TxFacts, stage string) {
 	}
 	if f.Fee != nil && f.Fee.Sign() > 0 {
 		m.move(acctKey(s.Acct), ModFee, f.Fee)
+	}
+	if f.FeeDust != nil && f.FeeDust.Sign() > 0 {
+		m.dust(acctKey(s.Acct)).Sub(m.dust(acctKey(s.Acct)), f.FeeDust)
+		m.dust(ModFee).Add(m.dust(ModFee), f.FeeDust)
 	}
 	if stage != "ok" {
 		return
